@@ -269,7 +269,7 @@ Proof. exact frame_call_keeps_inv. Qed.
 Print Assumptions C05_frame_call_general.
 
 (* the same for a data set that holds points only: no channel is declared and the rates announce no sub-frame (POINT:RATE
-   truncates to at least 1, ANALOG:RATE / POINT:RATE truncates to 0 — the sub-frame count then comes from the rates) *)
+   is not zero — any rate, below 1 Hz too —, ANALOG:RATE / POINT:RATE truncates to 0: the sub-frame count then comes from the rates) *)
 Theorem C05_frame_append_points_only : forall f_key f_tosize f_div f_is_zero,
   (forall x e, f_key x <> Throw e) -> (forall x e, f_tosize x <> Throw e) ->
   forall f s s' f0 ft,
@@ -342,7 +342,7 @@ Proof.
   - reflexivity.
   - vm_compute. reflexivity.
   - intros rate Rr. vm_compute in Rr. injection Rr as <-. split.
-    + intros rs Hrs. vm_compute in Hrs. injection Hrs as <-. discriminate.
+    + reflexivity.
     + intros ar q Ra Hq. vm_compute in Ra. injection Ra as <-. vm_compute in Hq. injection Hq as <-. reflexivity.
   - split; [vm_compute; reflexivity|]. split; [vm_compute; reflexivity|]. intros sf [].
   - vm_compute. reflexivity.
